@@ -162,6 +162,12 @@ def _c04(pid, tier):
     return c04.check(pid, tier)
 
 
+def _c11(pid, tier):
+    from . import c11
+    return c11.check(pid, tier)
+
+
+REGISTRY["C11"] = _c11
 REGISTRY["C04"] = _c04
 REGISTRY["C12"] = _c12
 REGISTRY["C15"] = _c1516
